@@ -23,7 +23,7 @@ Import ListNotations.
 From NV Require Import Rec.Lang.
 
 Inductive body : Type :=
-| BSrc (t : tm)
+| BSrc (s : src)
 | BMerge (b1 : body) (d1 : list N) (b2 : body) (d2 : list N)
 | BInd (tid : nat).        (* the closure of a term that is another thunk (an indirection) *)
 
@@ -50,7 +50,7 @@ Inductive patch_mode : Type :=
 | POverwrite.    (* broken: rebuild the cached value unconditionally *)
 
 Record cfg : Type := {
-  c_an : tm -> list N;           (* the dependency analysis (part A restricted to this fragment) *)
+  c_an : src -> list N;          (* the dependency analysis (part A restricted to this fragment) *)
   c_unknown : bool;              (* hook H4: every field FieldDeps::Unknown *)
   c_revert : revert_mode;
   c_patch : patch_mode;
@@ -62,10 +62,10 @@ Record cfg : Type := {
 
 (* the Rust code as it is *)
 Definition cfg_current : cfg :=
-  {| c_an := vars; c_unknown := false; c_revert := RevFresh; c_patch := PAssert; c_wrap_dyn := true |}.
+  {| c_an := svars; c_unknown := false; c_revert := RevFresh; c_patch := PAssert; c_wrap_dyn := true |}.
 (* the Rust code with the patch proposed for RecordInsert (a popped thunk is stored as it is) *)
 Definition cfg_fixed : cfg :=
-  {| c_an := vars; c_unknown := false; c_revert := RevFresh; c_patch := PAssert; c_wrap_dyn := false |}.
+  {| c_an := svars; c_unknown := false; c_revert := RevFresh; c_patch := PAssert; c_wrap_dyn := false |}.
 Definition with_unknown (c : cfg) : cfg :=
   {| c_an := c_an c; c_unknown := true; c_revert := c_revert c; c_patch := c_patch c; c_wrap_dyn := c_wrap_dyn c |}.
 
@@ -99,17 +99,17 @@ Definition mk_thunk (b : body) (deps : option (list N)) : thunk :=
 Definition field_deps (c : cfg) (names : list N) (d : fdef) : option (list N) :=
   if c_unknown c then None
   else Some (filter (fun x => mem x names)
-               (flat_map (fun kc => c_an c (snd kc)) (fctrs d)
+               (flat_map (fun kc => c_an c (STm (snd kc))) (fctrs d)
                 ++ match fbody d with Some t => c_an c t | None => [] end)).
 
-Definition lit_thunk (deps : option (list N)) (t : tm) : thunk :=
+Definition lit_thunk (deps : option (list N)) (t : src) : thunk :=
   match t with
-  | Num _ => Std (BSrc t)
+  | STm (Num _) => Std (BSrc t)
   | _ => mk_thunk (BSrc t) deps
   end.
 
 (* the contract `std.contract.from_predicate (fun v => v >= e)` is never a constant *)
-Definition ctr_thunk (deps : option (list N)) (t : tm) : thunk := mk_thunk (BSrc t) deps.
+Definition ctr_thunk (deps : option (list N)) (t : tm) : thunk := mk_thunk (BSrc (STm t)) deps.
 
 Fixpoint alloc_ctrs (deps : option (list N)) (ths : list thunk) (cs : list ctr) : list thunk * list (ckind * nat) :=
   match cs with
@@ -275,7 +275,7 @@ Definition saturate (ths : list thunk) (names : list N) (tid : nat) : body * lis
   | Some (Std b) => (b, [])
   | Some (Rev o (Some d) _) => (o, filter (fun x => mem x d) names)
   | Some (Rev o None _) => (o, names)
-  | None => (BSrc (Num 0), [])          (* dangling thunk id: no such value in Rust *)
+  | None => (BSrc (STm (Num 0)), [])    (* dangling thunk id: no such value in Rust *)
   end.
 
 (* merge_fields: the (value1, value2) x priority match for the value, then
@@ -354,7 +354,7 @@ Definition merge (c : cfg) (st : state) (rid1 rid2 : nat) : option (state * nat)
 (* ---------------------------------------------------------------- reading a field *)
 Fixpoint ievalb (ind : nat -> outcome) (look : N -> outcome) (b : body) : outcome :=
   match b with
-  | BSrc t => eval_tm look t
+  | BSrc s => eval_src look s
   | BMerge b1 d1 b2 d2 => merge_out (ievalb ind (scoped d1 look) b1) (ievalb ind (scoped d2 look) b2)
   | BInd tid => ind tid
   end.
